@@ -300,3 +300,7 @@ Print Assumptions C15_err_graded_incomplete.
 Print Assumptions C15_err_unknown_name.
 Print Assumptions C15_convenience_constructors.
 Print Assumptions C15_spellings.
+
+(* ---- source pins: the functions whose hand-written model carries the theorems above are still, textually (after
+   ast normalisation), the functions the model was validated against; an edit breaks Bridge/Pins_C15.v ---- *)
+From KV Require Bridge.Pins_C15.
